@@ -37,6 +37,17 @@ Proof. exact qstar_eps0. Qed.
 Theorem C03_score_root_unique : forall e1 e2 rows, (exists r, In r rows /\ fst (fst r) <> 0) ->
   score e1 rows = 0 -> score e2 rows = 0 -> e1 = e2.
 Proof. exact score_root_unique. Qed.
+(* the unit-interval map of a continuous outcome (translated tmle_unit_bounds): range, identity inside the band,
+   exact round trip with the back-transformation *)
+Theorem C03_unit_bounds_range : forall y mini maxi b, b <= 1 / 2 -> b <= tmle_unit_bounds_R y mini maxi b <= 1 - b.
+Proof. exact unit_bounds_range. Qed.
+Theorem C03_unit_bounds_roundtrip : forall y mini maxi b, mini < maxi ->
+  b <= (y - mini) / (maxi - mini) -> (y - mini) / (maxi - mini) <= 1 - b ->
+  tmle_unit_unbound_R (tmle_unit_bounds_R y mini maxi b) mini maxi = y.
+Proof. exact bounds_unbound_roundtrip. Qed.
+Theorem C03_bounded_outcome_back_in_range : forall y mini maxi b, mini <= maxi -> 0 <= b -> b <= 1 / 2 ->
+  mini <= tmle_unit_unbound_R (tmle_unit_bounds_R y mini maxi b) mini maxi <= maxi.
+Proof. exact bounds_unbound_range. Qed.
 (* the reported measures are literally the plug-in functions of the means of the targeted predictions *)
 Theorem C03_plugin_exact : forall l : list row,
   (tmle_rd l == tmle_mean true l - tmle_mean false l)%Q /\
@@ -62,3 +73,6 @@ Print Assumptions C03_unbound_range.
 Print Assumptions C03_epsilon_zero_is_identity.
 Print Assumptions C03_score_root_unique.
 Print Assumptions C03_plugin_exact.
+Print Assumptions C03_unit_bounds_range.
+Print Assumptions C03_unit_bounds_roundtrip.
+Print Assumptions C03_bounded_outcome_back_in_range.
